@@ -49,6 +49,7 @@ RULE = (
     "of 6 thresholds taken from the empirical score quantiles plus extremes; manager scenarios with 3-threshold chains per mode "
     "(frame level and scene level); non-trivial = chain along which at least one result flips; distinct = (source, mode, "
     "policy, #flips class, n class)"
+    " Later additions: distance chains end with an infinite threshold; a frame's own PassFailResult re-judged along a chain; numpy-scalar thresholds; doubly annotated objects; 2D results under all modes."
 )
 ASSUMPTIONS = ["ordinary (non false-positive-labelled) ground truth only", "thresholds compared per label with the same chain for all labels"]
 DECIDING = ["C08.chains_2d", "C08.duplicate_annotation_chains", "C08.chains", "C08.chains_with_flip", "C08.result_implications_checked", "C08.count_pairs_checked", "C08.ap_pairs_checked", "C08.map_pairs_checked", "C08.manager_chains", "C08.passfail_sweeps"]
